@@ -705,6 +705,8 @@ class Interp:
             return lambda *perm: NP.transpose(a, list(perm[0]) if len(perm) == 1 and isinstance(perm[0], (list, tuple)) else (list(perm) or None))
         if name == "astype":
             return lambda t, copy=True: NP.copy_arr(a, "astype")
+        if name == "reshape":
+            return lambda *shape, **kw: NP.reshape(a, shape[0] if len(shape) == 1 and isinstance(shape[0], (tuple, list)) else shape)
         if name == "fill":
             def fill(v):
                 NP.setitem(a, Ellipsis, v)
@@ -956,6 +958,8 @@ class Interp:
             return swap
         if name == "expand_dims":
             return lambda a, axis: NP.expand_dims(a, axis)
+        if name == "reshape":
+            return lambda a, shape, **kw: NP.reshape(a, shape if isinstance(shape, (tuple, list)) else (shape,)) if isinstance(a, AArr) else (_ for _ in ()).throw(AnalysisAbort("np.reshape of a non-array"))
         if name == "broadcast_to":
             def bto(a, shape, **kw):
                 tgt = NP.zeros(I.as_shape(shape), 0)
